@@ -56,7 +56,21 @@ for pid in ids:
     for i, c in enumerate(cases):
         c.id = 'k%d' % i
     t = time.time()
-    C.run_lines([exe], [c.line() for c in cases])
+    impl = C.run_lines([exe], [c.line() for c in cases])
+    if hasattr(mod, 'extra_check'):
+        # routes that the property-specific check drives itself (C12 producers, C15 route pairs)
+        driver = C.build_driver()
+        class Ctx: pass
+        ctx = Ctx()
+        mres = C.run_lines([driver], [c.line() for c in cases])
+        ctx.cases, ctx.impl_rel, ctx.impl_dbg, ctx.mod_rel, ctx.mod_dbg = cases, impl, {}, mres, {}
+        ctx.exe_rel, ctx.exe_dbg, ctx.driver, ctx.tier, ctx.seed = exe, exe, driver, tier, seed
+        ctx.run_impl = lambda cs, profile='release': C.run_lines([exe], [c.line() for c in cs])
+        ctx.run_model = lambda cs, dbg=False: C.run_lines([driver] + (['debug'] if dbg else []), [c.line() for c in cs])
+        try:
+            mod.extra_check(ctx)
+        except Exception as e:
+            print('  extra_check of %s not run under coverage: %r' % (pid, e))
     ncases[pid] = len(cases)
     print('%s: %d cases, %.0fs' % (pid, len(cases), time.time() - t), flush=True)
 
